@@ -104,11 +104,11 @@ class Recorder(object):
       o.writers[name] = did
       self._add(('W', o.inv, name, did, env.inv))
 
-  def d(self, env, name):
+  def d(self, env, name, k=None):
     o = self._owner(env, name)
     if o is not None:
       o.writers.pop(name, None)
-      self._add(('D', o.inv, name, env.inv))
+      self._add(('D', o.inv, name, env.inv, k))
 
   def e(self, env, sid, loc):
     self._add(('E', env.inv, sid, frozenset(k for k in loc if k in env.locals)))
@@ -300,7 +300,7 @@ class Twin(ast.NodeTransformer):
     node = self.generic_visit(node)
     out.append(node)
     for nm in names:
-      out.append(_stmt(_call('d', self.env(), _const(nm))))
+      out.append(_stmt(_call('d', self.env(), _const(nm), _const(node._vf_k))))
     return out
 
   def visit_If(self, node):
